@@ -72,6 +72,17 @@ func (r *decideRun) addrKey(v ssa.Value) (string, bool) {
 		if k, ok := r.addrKey(x.X); ok {
 			return fmt.Sprintf("%s.f%d", k, x.Field), true
 		}
+	default:
+		// a pointer value that is known to be the address of a local object (handed through a variable,
+		// a result slot or a phi)
+		if _, isPtr := v.Type().Underlying().(*types.Pointer); isPtr {
+			saved := r.err
+			a := r.eval(v)
+			r.err = saved
+			if a.Kind == "nonnil" && strings.HasPrefix(a.Sym, "alloc:") {
+				return "a" + strings.TrimPrefix(a.Sym, "alloc:"), true
+			}
+		}
 	}
 	return "", false
 }
@@ -344,6 +355,9 @@ func (r *decideRun) eval1(v ssa.Value) AV {
 			}
 		}
 		return r.fail("field %d of %s", x.Field, a)
+	case *ssa.Alloc:
+		// the address of a local / freshly allocated object: never nil
+		return AV{Kind: "nonnil", Sym: fmt.Sprintf("alloc:%p", x)}
 	case *ssa.Function:
 		return AV{Kind: "func", Fn: x}
 	case *ssa.MakeClosure:
